@@ -10,6 +10,19 @@ import "strings"
 type buildSpec struct {
 	protoArrays bool
 	null        bool
+	// strict: a tag option must select something for the type it is on ("a tag option with no
+	// matching codec" is an error): `proto` on slices and maps only, `intern` on strings only,
+	// nothing on structs. plenc ignores such options instead (finding F14); the non-strict
+	// spec ignores them too, so that everything else about the definition is still judged.
+	strict bool
+}
+
+// internable: a string, a defined string type, a pointer to one, or a null.String
+func internable(t *TyDef) bool {
+	for t.K == "named" || t.K == "ptr" {
+		t = t.Elem
+	}
+	return t.K == "str" || (t.K == "ext" && t.Name == "null.String")
 }
 
 func tyKind(t *TyDef) string {
@@ -109,6 +122,9 @@ func (b buildSpec) accepts(t *TyDef, opt string, named bool) bool {
 		if !named && t.Elem.K == "uint8" && opt == "" {
 			return true // []byte
 		}
+		if b.strict && opt != "" && (opt != "proto" || (!named && t.Elem.K == "uint8")) {
+			return false
+		}
 		if tyKind(t.Elem) == "map" || !b.accepts(t.Elem, "", false) {
 			return false
 		}
@@ -129,8 +145,19 @@ func (b buildSpec) accepts(t *TyDef, opt string, named bool) bool {
 		if tyKind(t.Elem) == "map" {
 			return false
 		}
-		return b.accepts(t.Key, "", false) && b.accepts(t.Elem, "", false)
+		if b.strict && opt != "" && opt != "proto" {
+			return false
+		}
+		if !b.accepts(t.Key, "", false) || !b.accepts(t.Elem, "", false) {
+			return false
+		}
+		// values that are slices of length-delimited elements (also behind pointers): in the repeated
+		// form an entry would hold one value field per element, which no map entry can
+		return !(b.protoArrays && (refEnc{}).wt(t.Elem, "") == 3)
 	case "struct":
+		if b.strict && opt != "" {
+			return false
+		}
 		seen := map[int64]bool{}
 		dup := false
 		for _, f := range t.Fields {
@@ -152,6 +179,9 @@ func (b buildSpec) accepts(t *TyDef, opt string, named bool) bool {
 				return false
 			}
 			if fopt == "intern" {
+				if b.strict && !internable(f.T) {
+					return false
+				}
 				fopt = "" // not a codec selector: asks a string codec to intern
 			}
 			if !b.accepts(f.T, fopt, false) {
@@ -199,6 +229,9 @@ func oracleBuild(op *Sexp, res string) []string {
 	got := strings.HasPrefix(res, "ok ")
 	if !got && res != "err" {
 		return []string{"CodecForType outcome " + res}
+	}
+	if got && want && !(buildSpec{protoArrays: flags[1] == '1', null: null, strict: true}).accepts(td, string(tag), false) {
+		return []string{"F14 a tag option with no matching codec (an option on a slice, map or struct that selects nothing; `intern` on a type that is not a string) is accepted and silently ignored instead of being an error: " + clip(res, 200)}
 	}
 	if got != want {
 		if want {
